@@ -48,6 +48,33 @@ def check_select_options():
     return obs
 
 
+# writers that may emit a set in container order, with the reason it cannot reach a result
+SET_ORDER_EXEMPT = {
+    ("mypy/build.py", "GraphMessage.write"): "coordinator -> worker IPC message: the reader rebuilds a set, the bytes are neither hashed nor stored",
+}
+
+
+def check_writer_set_order():
+    from frames import setorder
+
+    seen, found = setorder.scan()
+    if seen < 40:
+        return [{"name": "set-order/writers-found", "status": "unknown", "where": f"only {seen} writer functions found: layout changed?"}]
+    obs = [{"name": "set-order/writers-scanned", "status": "discharged", "where": f"{seen} write/serialize functions in {', '.join(setorder.MODULES)}"}]
+    for rel, qual, ln, txt in found:
+        if (rel, qual) in SET_ORDER_EXEMPT:
+            obs.append({"name": f"set-order/exempt/{qual}", "status": "discharged", "where": f"{rel}:{ln} {txt}", "detail": SET_ORDER_EXEMPT[(rel, qual)]})
+            continue
+        obs.append({"name": f"set-order/no-container-order-in-writer/{qual}", "status": "refuted", "where": f"{rel}:{ln} {txt}",
+                    "detail": "a set-valued expression is emitted in container order: the bytes depend on the hash seed", "key": f"set-order:{qual}:{txt}", "confirmed": True})
+    return obs
+
+
+def set_order_targets():
+    return [StaticCheck("writers.no_set_in_container_order", check_writer_set_order,
+                        note="syntactic: set-valued attributes / locals (by annotation or construction) consumed order-sensitively inside write / serialize functions")]
+
+
 def targets(tier):
-    return [StaticCheck("detopts.select_options_affecting_cache", check_select_options,
+    return set_order_targets() + [StaticCheck("detopts.select_options_affecting_cache", check_select_options,
                         note="set-valued options are found by reflection on Options(); the loop shape is matched syntactically (another shape is reported undecided, not passed)")]
